@@ -33,12 +33,42 @@ Why(e) ==
     ELSE IF Len(e.queries) >= MaxQueries THEN "shrinking did not finish within the query bound"
     ELSE "ok"
 
+(***************************************************************************)
+(* End-to-end events: one property test of an authored project, run by the  *)
+(* real test runner (PropertyTest::run through Project::check):             *)
+(*   {"e2e", "f", "p", "mode", "found", "value", "success", "iterations", "max"} *)
+(* The fuzzers are the catalogue's, written in Aiken; a value determines    *)
+(* the choices that produce it.                                             *)
+(***************************************************************************)
+Decode(f, v) ==
+    CASE f = "byte"  -> <<v>>
+      [] f = "pair"  -> <<v \div 256, v % 256>>
+      [] f = "const" -> <<>>
+InRange(f, v) ==
+    CASE f = "byte"  -> v \in 0..255
+      [] f = "pair"  -> v \in 0..65535
+      [] f = "const" -> v = 7
+\* every sample is kept / no sample is kept, whatever the seed
+AllKept(p, mode)  == (p = "never" /\ mode # "succeed_eventually") \/ (p = "always" /\ mode = "succeed_eventually")
+NoneKept(p, mode) == (p = "always" /\ mode # "succeed_eventually") \/ (p = "never" /\ mode = "succeed_eventually")
+
+WhyE2E(e) ==
+    IF e.found /\ ~InRange(e.f, e.value) THEN "the reported counterexample is not a value of the fuzzer"
+    ELSE IF e.found /\ Status(e.f, e.p, e.mode, Decode(e.f, e.value)) # [s |-> "keep", v |-> e.value]
+         THEN "the reported counterexample does not falsify the property when re-applied"
+    ELSE IF e.success # TestPasses(e.mode, e.found) THEN "the verdict is not the one documented for this expectation"
+    ELSE IF AllKept(e.p, e.mode) /\ ~e.found THEN "every sample is a counterexample, none was reported"
+    ELSE IF NoneKept(e.p, e.mode) /\ e.found THEN "no sample is a counterexample, one was reported"
+    ELSE IF e.found /\ ~(e.iterations \in 1..e.max) THEN "the iteration count is outside 1..max"
+    ELSE IF ~e.found /\ e.iterations # e.max THEN "no counterexample, but not all iterations were run"
+    ELSE "ok"
+
 VARIABLES l, bad, okc
 vars == <<l, bad, okc>>
 Init == l = 1 /\ bad = <<>> /\ okc = 0
 Judge ==
     /\ l <= Len(Rec)
-    /\ LET w == Why(Rec[l]) IN
+    /\ LET w == IF "e2e" \in DOMAIN Rec[l] THEN WhyE2E(Rec[l]) ELSE Why(Rec[l]) IN
         /\ bad' = IF w \notin {"ok", "skip"} THEN Append(bad, <<l, w>>) ELSE bad
         /\ okc' = IF w = "ok" THEN okc + 1 ELSE okc
     /\ l' = l + 1
